@@ -20,6 +20,12 @@ from mc.flo import runner
 def family():
     from mc.flo import families as F
     yield from F.fam_restart()
+    # plain auxiliaries that complete (done) BEFORE their main frame is exited: their frames stay entered until then
+    for label, prog, meta in F.fam_plain_aux(quick=True):
+        kind, var = label.split("/")[1:3]
+        if kind in ("repeat1", "now", "donemid") and var == "bits" and \
+                (core.TIER != "quick" or sum(len(s) for s in meta.get("slots", ()) if s) == 1):
+            yield label, prog, meta
     if core.TIER == "quick":
         yield from F.fam_forest(2, pairs=True)
         yield from F.fam_forest(3, pairs=False, aux_kinds=("repeat1", "never"))
